@@ -405,13 +405,35 @@ func lengthMasks(f *ast.File, fn string, coqName string) {
 	fmt.Fprintf(&out, "Definition %s_long_bit : N := %s%%N.\nDefinition %s_size_mask : N := %s%%N.\n", coqName, longTest, coqName, sizeMask)
 }
 
+func fileConsts(f *ast.File) map[string]constant.Value {
+	env := map[string]constant.Value{}
+	for _, d := range f.Decls {
+		gd, ok := d.(*ast.GenDecl)
+		if !ok || gd.Tok != token.CONST {
+			continue
+		}
+		for _, sp := range gd.Specs {
+			vs := sp.(*ast.ValueSpec)
+			for i, n := range vs.Names {
+				if i < len(vs.Values) {
+					if v := evalConst(vs.Values[i], env); v != nil {
+						env[n.Name] = v
+					}
+				}
+			}
+		}
+	}
+	return env
+}
+
 func callArgConst(f *ast.File, fn, callee string, idx int) string {
 	fd := findFunc(f, fn)
 	res := ""
+	env := fileConsts(f)
 	ast.Inspect(fd.Body, func(n ast.Node) bool {
 		ce, ok := n.(*ast.CallExpr)
 		if ok && selName(ce.Fun) == callee && idx < len(ce.Args) {
-			if v := evalConst(ce.Args[idx], nil); v != nil {
+			if v := evalConst(ce.Args[idx], env); v != nil {
 				res = v.ExactString()
 			}
 		}
@@ -571,6 +593,27 @@ func main() {
 	lengthMasks(ap, "ReadLength", "read_length")
 	lengthMasks(ap, "PeekLength", "peek_length")
 	fmt.Fprintf(&out, "Definition struct_limit : Z := %s%%Z.\n", callArgConst(ap, "ReadStruct", "ReadTVLBytesWithLimit", 2))
+
+	// every primitive value read goes through ReadValueBytesWithLimit with a constant limit
+	out.WriteString("Definition value_limit_sites : list (string * Z) := [")
+	for i, fn := range []string{"ReadUtcTime", "ParseBitString", "ParseOctetString", "ReadBigInt"} {
+		if i > 0 {
+			out.WriteString("; ")
+		}
+		fmt.Fprintf(&out, "(%s, %s%%Z)", coqStr(fn), callArgConst(ap, fn, "ReadValueBytesWithLimit", 2))
+		// and the unbounded primitive must not be called directly there
+		direct := false
+		ast.Inspect(findFunc(ap, fn).Body, func(n ast.Node) bool {
+			if ce, ok := n.(*ast.CallExpr); ok && selName(ce.Fun) == "ReadExpectedBytes" {
+				direct = true
+			}
+			return true
+		})
+		if direct {
+			die("%s calls ReadExpectedBytes directly (unbounded length)", fn)
+		}
+	}
+	out.WriteString("].\n")
 
 	hs := parseFile("core/hashing/hashes.go")
 	fmt.Fprintf(&out, "Definition fnv_offset64 : N := %s%%N.\n", evalConst(findConst(hs, "offset64"), nil).ExactString())
